@@ -4,7 +4,7 @@
    equation below also says: kept samples retain their values, labels and relative frame order,
    whatever in-place surgery was done on locations shared between samples. *)
 From Coq Require Import Permutation.
-From PV Require Import M_Filter M_Prune M_TagFilter S_Filter S_Prune S_TagFilter L_FilterBase L_Filter L_Prune.
+From PV Require Import M_Filter M_Prune M_TagFilter S_Filter S_Prune S_TagFilter L_FilterBase L_Filter L_Prune M_Driver L_Driver.
 Open Scope Z_scope.
 Open Scope string_scope.
 
@@ -86,6 +86,26 @@ Definition full_statement_apply_focus : Prop :=
     | None => True
     end ->
     fsamples p' = spec_apply_focus M V uts p units c.
+
+(* ---- the glue of the driver (model M_Driver, tied to driver.PProf / sessions / web by the e2e cases) *)
+
+(* tagroot / tagleaf only add frames: number of samples, values and labels are untouched *)
+Theorem tag_roots_keep_samples : forall p rootkeys leafkeys,
+  map payload (p_sample (add_label_nodes p rootkeys leafkeys)) = map payload (p_sample p).
+Proof. exact add_label_nodes_payload. Qed.
+Print Assumptions tag_roots_keep_samples.
+
+(* the filters of a report run on the profile that already has its tag roots / leaves, whatever
+   relative_percentages says, and every report starts from the profile it is given (no state) *)
+Theorem report_filters_after_tag_roots : forall M V uts p units rc,
+  report_model M V uts p units rc
+  = (fst (fst (apply_focus M V uts (with_label_nodes p rc) units (rc_cfg rc))),
+     snd (fst (apply_focus M V uts (with_label_nodes p rc) units (rc_cfg rc)))).
+Proof.
+  intros. unfold report_model. destruct (apply_focus M V uts (with_label_nodes p rc) units (rc_cfg rc)) as [[e q] m].
+  reflexivity.
+Qed.
+Print Assumptions report_filters_after_tag_roots.
 
 (* ---------------------------------------------------------------- witnesses *)
 Definition Meq (rx s : string) : bool := String.eqb rx s.
